@@ -23,6 +23,9 @@ AEAD_NAME = {1: "aes128gcm", 2: "aes256gcm", 3: "chacha20poly1305"}
 STRUCTURAL = {"leaf", "slice", "flip", "mask", "xor", "hole"}
 
 
+STATS = {"firstvalid_retries": 0}
+
+
 class Unbound(Exception):
     """pattern mode: a term the implementation has not produced (yet)"""
 
@@ -150,6 +153,7 @@ class ExactEval(BaseEval):
                     self.hole = ctr
                     cand = self.eval(t[2])
                     if prims.nist_sk_valid(curve, cand):
+                        STATS["firstvalid_retries"] += ctr      # > 0: the rejection branch of the loop was taken
                         return cand
             finally:
                 self.hole = None
